@@ -25,7 +25,11 @@ def tz_of_case(index, chunk, tzs):
 TZS = ["UTC", "JST-9", "UTC", "<-0330>3:30", "UTC", "CET-1CEST,M3.5.0,M10.5.0/3", "UTC", "EST5EDT,M3.2.0,M11.1.0"]
 
 
-def run_cases(ctx, flavour, lines, chunk=500, timeout=900, tz="UTC", jobs=None, lags=None, tzs=None):
+UPTIMES = [0, 0, 31, 0, 400, 0, 26, 0]     # days added to the monotonic / boot clocks (VERIF_UPTIME_DAYS), per chunk
+
+
+def run_cases(ctx, flavour, lines, chunk=500, timeout=900, tz="UTC", jobs=None, lags=None, tzs=None, envs=None, uptimes=None):
+    """envs: list of extra environment dicts cycled over the chunks (e.g. Qt logging variables set by the user)"""
     """lags: per-chunk delivery lag (ms of virtual wall-clock time that pass between the construction of a message and its
     formatting; VERIF_LAG_MS in the driver) - cycled over the chunks; None = no lag anywhere."""
     """lines: list of case lines (each with its own id as 2nd token).
@@ -42,8 +46,10 @@ def run_cases(ctx, flavour, lines, chunk=500, timeout=900, tz="UTC", jobs=None, 
     lag_of = (lambda n: lags[n % len(lags)]) if lags else (lambda n: 0)
     # tzs: per-chunk time zone (POSIX TZ strings, no tzdata needed), cycled with a different period than the lags
     tz_of = (lambda n: tzs[(n // 2) % len(tzs)]) if tzs else (lambda n: tz)
-    res = core.run_parallel([["env", "VERIF_LAG_MS=%d" % lag_of(n), "TZ=" + tz_of(n), exe, p] for n, p in enumerate(paths)], env, jobs=jobs,
-                            timeout=timeout)
+    env_of = (lambda n: envs[n % len(envs)]) if envs else (lambda n: {})
+    up_of = (lambda n: uptimes[n % len(uptimes)]) if uptimes else (lambda n: 0)
+    res = core.run_parallel([["env", "VERIF_LAG_MS=%d" % lag_of(n), "VERIF_UPTIME_DAYS=%d" % up_of(n), "TZ=" + tz_of(n)]
+                             + ["%s=%s" % kv for kv in env_of(n).items()] + [exe, p] for n, p in enumerate(paths)], env, jobs=jobs, timeout=timeout)
     results = {}
     crashes = []
     skipped = set()
@@ -61,7 +67,7 @@ def run_cases(ctx, flavour, lines, chunk=500, timeout=900, tz="UTC", jobs=None, 
             path = os.path.join(ctx.tmp, "retry-%s-%d.txt" % (flavour, n))
             with open(path, "w") as f:
                 f.write("\n".join(pending) + "\n")
-            env2 = dict(env, VERIF_FLUSH="1", VERIF_LAG_MS=str(lag_of(n)), TZ=tz_of(n))
+            env2 = dict(env, VERIF_FLUSH="1", VERIF_LAG_MS=str(lag_of(n)), TZ=tz_of(n), VERIF_UPTIME_DAYS=str(up_of(n)), **env_of(n))
             rc2, out2, err2 = _run_chunk(exe, path, env2, timeout)
             got = {}
             _parse(out2, got)
